@@ -40,7 +40,15 @@ impl StoreProp {
 fn heads_of(keys: &Keys, heads: &[(usize, u64)]) -> (AuthorHeads, String) {
     let mut h = AuthorHeads::default();
     for (a, ts) in heads {
-        h.insert(keys.authors[*a % keys.authors.len()].id(), *ts);
+        if *a >= 1000 {
+            // synthetic authors (any 32 bytes are an author id): for sets of more than a hundred heads
+            let mut id = [0xA0u8; 32];
+            id[0] = ((*a - 1000) / 256) as u8;
+            id[31] = ((*a - 1000) % 256) as u8;
+            h.insert(iroh_docs::AuthorId::from(&id), *ts);
+        } else {
+            h.insert(keys.authors[*a % keys.authors.len()].id(), *ts);
+        }
     }
     let toks: Vec<(String, u64)> = h.iter().map(|(a, t)| (hex(a.as_bytes()), *t)).collect();
     (h, heads_tok(&toks))
@@ -130,6 +138,18 @@ impl Property for StoreProp {
                         }
                         15 => ops.push(Op::S(SOp::Reopen)),
                         16..=17 => ops.push(Op::S(SOp::Observe { n: rng.below(2) })),
+                        18 if rng.chance(1, 3) => {
+                            // more than 127 heads: the list length needs two bytes; limits around
+                            // "k newest heads fit exactly" (each head takes 40 bytes here)
+                            let n = rng.range(125, 132);
+                            let base = 1_700_000_000_000_000u64;
+                            let k = rng.range(n.saturating_sub(4), n + 1);
+                            let limit = (40 * k + rng.below(5)).saturating_sub(1);
+                            ops.push(Op::HeadsCodec {
+                                heads: (0..n).map(|i| (1000 + i, base + (i as u64 * 7919) % 1000)).collect(),
+                                limit: if rng.chance(1, 8) { None } else { Some(limit) },
+                            });
+                        }
                         _ => {
                             let k = rng.range(0, 5);
                             ops.push(Op::HeadsCodec {
@@ -365,6 +385,7 @@ impl Property for StoreProp {
                         Err(_) => "err".to_string(),
                     };
                     w.lines.push(Line::model(format!("hencode {lim} {tok}"), imp));
+                    w.lines.push(Line::oracle(format!("hencodes {lim} {tok}"), if enc.is_ok() { "ok" } else { "err" }));
                     if let Ok(b) = enc {
                         // never exceeds the limit
                         let fits = limit.map(|l| b.len() <= l).unwrap_or(true);
